@@ -1,4 +1,4 @@
 SPECIFICATION PSpec
-CONSTANTS Widths = {1, 2} Cuts = {"fc"}
-INVARIANTS ContractButD5 C13_Width C12_Arcs
+CONSTANTS Widths = {1, 2} Cuts = {"fc"} Repaired = TRUE
+INVARIANTS PContract C13_Width C12_Arcs
 CHECK_DEADLOCK FALSE
